@@ -36,6 +36,7 @@ type GenCfg struct {
 	Coercers         bool // z.WithCoercer on some primitives
 	EmptyTags        bool // tag values may be the empty string (C06 only)
 	Widths           bool // Int64 / Float32 schemas (int64 / float32 destinations)
+	InfFloats        bool // +Inf / -Inf float leaves (only where no reference model and no text rendering is involved)
 	RawStrings       bool // strings that are not valid UTF-8 (only where the record stays a Go value: no JSON text, no form)
 	BigInts          bool // int64 values beyond 2^53 (only where every front end in play carries integers exactly)
 }
@@ -133,6 +134,10 @@ func genTyped(r *Rng, kind string) Val {
 	case "bool":
 		return VB(r.P(0.5))
 	case "time":
+		if r.P(0.04) {
+			// instants far outside the range a Unix nanosecond count can hold (1678..2262) are ordinary time.Time values
+			return VT(Pick(r, []string{"9999-12-31T23:59:59Z", "1600-05-17T00:00:00Z", "2300-01-01T00:00:00Z", "1066-10-14T09:00:00Z"}))
+		}
 		t := dayTime(r.Intn(10) - 3)
 		if r.P(0.15) {
 			// the same instant written in another zone
@@ -195,7 +200,11 @@ func genTests(r *Rng, c *GenCfg, n *Node) {
 				case "min", "max", "len":
 					t.N = int64(r.Intn(6))
 				case "oneof":
-					for j := 0; j < 1+r.Intn(3); j++ {
+					no := 1 + r.Intn(3)
+					if r.P(0.1) {
+						no = 6 + r.Intn(4) // long option lists (messages may abbreviate them; the list itself is the schema's)
+					}
+					for j := 0; j < no; j++ {
 						t.L = append(t.L, VS(Pick(r, strDomain)))
 					}
 				case "contains", "prefix", "suffix":
@@ -224,6 +233,9 @@ func genTests(r *Rng, c *GenCfg, n *Node) {
 				t = TestSpec{T: "custom", Mod: int64(Pick(r, []int{0, 2})), Code: "c" + strconv.Itoa(i)}
 			case "time":
 				t = TestSpec{T: Pick(r, []string{"after", "before", "eq"}), S: dayTime(r.Intn(8) - 2)}
+				if r.P(0.06) {
+					t.S = Pick(r, []string{"1600-05-17T00:00:00Z", "2300-01-01T00:00:00Z"})
+				}
 			case "slice":
 				k := Pick(r, []string{"min", "max", "len", "contains"})
 				t = TestSpec{T: k, N: int64(r.Intn(4))}
@@ -417,7 +429,8 @@ func genKind(r *Rng, c *GenCfg, kind string, depth int) *Node {
 					if r.P(0.35) {
 						tv := tn[:1] + "_" + key
 						if r.P(0.1) {
-							tv = Pick(r, []string{tn[:1] + "," + key, tn[:1] + " " + key, key + ",omitempty", tn[:1] + "-" + key, "é" + key})
+							tv = Pick(r, []string{tn[:1] + "," + key, tn[:1] + " " + key, key + ",omitempty", tn[:1] + "-" + key, "é" + key,
+								"2" + tn[:1] + "_" + key, strconv.Itoa(2000 + 10*len(key) + int(key[0])%10)}) // digit-leading and all-digit keys are keys, not positions
 							if c.EmptyTags && r.P(0.3) {
 								tv = "" // names the field "": legal, but two such fields of one struct collide
 							}
@@ -517,7 +530,17 @@ func GenParseInput(r *Rng, c *GenCfg, n *Node) (v Val, missing bool) {
 		if c.NoCoerceVariants {
 			return tv, false
 		}
-		return representation(r, n.Kind, tv), false
+		rv := representation(r, n.Kind, tv)
+		if c.Widths && r.P(0.2) {
+			// a caller holding sized numbers passes them as they are: int64 / int32 / float32 values
+			switch {
+			case rv.K == "i" && n.Kind == "int" && rv.I > -1<<31 && rv.I < 1<<31:
+				rv.S = Pick(r, []string{"64", "32"})
+			case rv.K == "f" && n.Kind == "float" && float64(float32(rv.F)) == rv.F:
+				rv.S = "32"
+			}
+		}
+		return rv, false
 	case "struct":
 		if r.P(c.PBadType / 2) {
 			return Pick(r, []Val{VI(5), VS("str"), VL(VS("x")), VB(true)}), false
@@ -582,6 +605,12 @@ func GenParseInput(r *Rng, c *GenCfg, n *Node) (v Val, missing bool) {
 			if r.P(0.3) {
 				return Val{}, true
 			}
+			if n.CT != "int" && r.P(0.3) {
+				return VI(int64(Pick(r, []int{65, 66, 8364}))), false // convertible in Go (a rune), but not a string
+			}
+			if n.CT == "int" && r.P(0.3) {
+				return VF(Pick(r, []float64{2, 2.9})), false // convertible in Go, but not an int
+			}
 			return Pick(r, []Val{VB(true), VF(1.5), VNil()}), false
 		}
 		if n.CT == "int" {
@@ -591,6 +620,9 @@ func GenParseInput(r *Rng, c *GenCfg, n *Node) (v Val, missing bool) {
 	case "pre":
 		if r.P(0.1) {
 			return VS("ERR" + Pick(r, strDomain)), false
+		}
+		if r.P(0.1) {
+			return VS("n/a"), false // present, but preprocessed into an absent-looking value
 		}
 		iv, _ := GenParseInput(r, &GenCfg{PValid: c.PValid, NoCoerceVariants: true}, n.Elem)
 		if iv.K == "s" && r.P(0.3) {
@@ -714,6 +746,9 @@ func GenValidateInput(r *Rng, c *GenCfg, n *Node, full bool) Val {
 		}
 		if c.RawStrings && n.Kind == "string" && r.P(0.05) {
 			v = VS(Pick(r, rawStrings))
+		}
+		if c.InfFloats && n.Kind == "float" && r.P(0.05) {
+			v = Val{K: "f", S: Pick(r, []string{"+inf", "-inf"})} // a legitimate, non-zero value of the type
 		}
 		if c.BigInts && n.Kind == "int" && n.W == "64" && r.P(0.15) {
 			v = VI(Pick(r, []int64{9007199254740993, -9007199254740993, 9223372036854775807, 1152921504606846977}))
